@@ -474,7 +474,7 @@ pub fn sets(ctx: &Ctx) -> Vec<CaseSet> {
     let (tb1, cfg1) = (tb.clone(), cfg.clone());
     out.push(CaseSet::new(
         "generated-text",
-        ctx.size(15_000, 600_000),
+        ctx.size(45_000, 3_000_000),
         Box::new(move |rep, rng, _| {
             let (input, tag): (Vec<u8>, &str) = match rng.below(7) {
                 0 | 1 => (text::token_soup(rng, 12), "token-soup"),
